@@ -11,7 +11,7 @@ use vcore::{prop_search, Outcome, Run, Search};
 use wire::*;
 use wtransport::Connection;
 
-const RULE: &str = "case = runtime flavour x role of the wtransport endpoint x an ordered script of 1..6 stalled streams (uni/bidi; stall position: no byte = implicit open, partial preamble, complete preamble then silence, data that the application accepts but never reads, a complete GREASE frame then silence / GREASE frame + partial preamble on a bidi stream, the type varint without the session id on a uni stream) interleaved with 1..8 healthy streams (preamble + tagged payload + FIN) x 0..3 datagrams (re-sent until one arrives) x a backlog of 0 or 2..6 datagrams sent and acknowledged before the stream script while the application is not receiving yet (all of them must be delivered afterwards) x final clean close (close capsule or QUIC application close with generated code/reason sent by the raw peer, or Connection::close(code, reason) by the application, or the application dropping every handle and stream it holds); plus a public-API variant (wtransport<->wtransport, an OpeningBiStream/OpeningUniStream held un-awaited). Oracle: an application that keeps accepting receives every healthy stream with its bytes, at least one datagram, and finally the exact close value, each within the bound; after a local close the peer sees exactly (code, reason), after dropping everything the peer sees the connection closed within the bound. Non-trivial: >= 1 stalled stream opened before >= 1 healthy stream of the same kind; distinct = distinct case";
+const RULE: &str = "case = runtime flavour x role of the wtransport endpoint x an ordered script of 1..6 stalled streams, in one case of six preceded by a crowd of 7..27 more of one kind (uni/bidi; stall position: no byte = implicit open, partial preamble, complete preamble then silence, data that the application accepts but never reads, a complete GREASE frame then silence / GREASE frame + partial preamble on a bidi stream, the type varint without the session id on a uni stream) interleaved with 1..8 healthy streams (preamble + tagged payload + FIN) x 0..3 datagrams (re-sent until one arrives) x a backlog of 0 or 2..6 datagrams sent and acknowledged before the stream script while the application is not receiving yet (all of them must be delivered afterwards) x final clean close (close capsule or QUIC application close with generated code/reason sent by the raw peer, or Connection::close(code, reason) by the application, or the application dropping every handle and stream it holds); plus a public-API variant (wtransport<->wtransport, an OpeningBiStream/OpeningUniStream held un-awaited). Oracle: an application that keeps accepting receives every healthy stream with its bytes, at least one datagram, and finally the exact close value, each within the bound; after a local close the peer sees exactly (code, reason), after dropping everything the peer sees the connection closed within the bound. Non-trivial: >= 1 stalled stream opened before >= 1 healthy stream of the same kind; distinct = distinct case";
 
 #[derive(Clone, Debug, Serialize, Deserialize)]
 pub struct Item {
@@ -66,8 +66,17 @@ pub fn case_strategy() -> impl Strategy<Value = Case> {
         "[a-zA-Z0-9 ]{0,24}",
         prop_oneof![3 => Just(0u8), 1 => Just(1u8), 1 => Just(2u8)],
         (any::<bool>(), prop_oneof![3 => Just(0u8), 1 => Just(1u8), 2 => Just(2u8)], prop_oneof![2 => Just(0u8), 1 => 2u8..7]),
+        // a crowd: many more stalled streams of one kind than any internal queue or task budget
+        // of the library is long (well inside the transport's limit of 100 concurrent streams),
+        // opened before everything else
+        prop_oneof![5 => Just((0usize, false, 0u8)), 1 => (7usize..28, any::<bool>(), 0u8..6)],
     )
-        .prop_map(|(flavor, wt_is_server, variant, mut items, datagrams, close_capsule, code, reason, relay, (default_config, ending, dgram_backlog))| {
+        .prop_map(|(flavor, wt_is_server, variant, mut items, datagrams, close_capsule, code, reason, relay, (default_config, ending, dgram_backlog), (crowd, crowd_bidi, crowd_pos))| {
+            for j in 0..crowd {
+                // positions vary inside the crowd but stay "stalled before the application can see it"
+                // for most of them, so the crowd does not need the application to hold 28 streams
+                items.insert(0, Item { stalled: true, bidi: crowd_bidi, pos: if j % 4 == 3 { crowd_pos } else { crowd_pos % 2 } });
+            }
             // at least one healthy and one stalled item
             if !items.iter().any(|i| !i.stalled) {
                 items.push(Item { stalled: false, bidi: items[0].bidi, pos: 0 });
